@@ -20,8 +20,14 @@ for i in range(1, 19):
     except Exception:
         pass
     cov = ev.get('coverage', {})
-    rows.append('| %s | %d | %s | %s | %s |' % (p, n, ', '.join(per), cov.get('evaluations', ''), ev.get('wall_s', '')))
-table = '| property | obligations | theorem files | T2/T3 evaluations (last quick run) | wall s |\n|---|---|---|---|---|\n' + '\n'.join(rows) + \
+    cv = ''
+    try:
+        m = re.search(r'anchored files together: (\d+) of (\d+) statements reached \((\d+)%\)', open(os.path.join(V, 'coverage/%s.md' % p)).read())
+        cv = '%s%% (%s/%s)' % (m.group(3), m.group(1), m.group(2))
+    except Exception:
+        pass
+    rows.append('| %s | %d | %s | %s | %s | %s |' % (p, n, ', '.join(per), cov.get('evaluations', ''), ev.get('wall_s', ''), cv))
+table = '| property | obligations | theorem files | T2/T3 evaluations (last quick run) | wall s | anchored statements executed by the check (coverage/Cxx.md) |\n|---|---|---|---|---|---|\n' + '\n'.join(rows) + \
         '\n\nTotal: %d theorems in `lean/Props/` (plus the lemmas they rest on in `lean/Proofs/`).' % tot
 print(table)
 if '--write' in sys.argv:
